@@ -404,8 +404,16 @@ class Inliner:
         if callee.get("def_kind") != "Closure" or callee.get("layout") or callee.get("coroutine") or callee["def"] == caller["def"]:
             return None
         env_ty = self.d["types"][callee["locals"][1]["ty"]] if len(callee["locals"]) > 1 else None
-        if not isinstance(env_ty, dict) or env_ty.get("k") != "closure":
-            return None          # environment taken by reference (Fn / FnMut shim): not handled
+        by_ref = None
+        if isinstance(env_ty, dict) and env_ty.get("k") == "ref":
+            # a closure that only borrows its environment (Fn / FnMut), called once by value through the FnOnce shim: the body
+            # takes `&closure` / `&mut closure`
+            by_ref = "mut" if (env_ty.get("s") or "").startswith("&mut") else "shared"
+            src0 = t["args"][0].get("move") or t["args"][0].get("copy")
+            if src0 is None or src0["p"]:
+                return None
+        elif not isinstance(env_ty, dict) or env_ty.get("k") != "closure":
+            return None
         tup = t["args"][1].get("move") or t["args"][1].get("copy")
         if tup is None or tup["p"]:
             return None
@@ -413,7 +421,10 @@ class Inliner:
         n0 = len(callee["blocks"])
         lm, bm, lbase, bbase, newb = self._splice(caller, callee, None, None, None)
         span = t["span"]
-        blk["stmts"].append({"k": "assign", "place": {"l": lbase + 1, "p": []}, "rv": {"use": t["args"][0]}, "span": span})
+        if by_ref:
+            blk["stmts"].append({"k": "assign", "place": {"l": lbase + 1, "p": []}, "rv": {"ref": {"l": src0["l"], "p": []}, "mut": by_ref == "mut", "fake": False}, "span": span})
+        else:
+            blk["stmts"].append({"k": "assign", "place": {"l": lbase + 1, "p": []}, "rv": {"use": t["args"][0]}, "span": span})
         for i in range(callee.get("arg_count", 1) - 1):
             blk["stmts"].append({"k": "assign", "place": {"l": lbase + 2 + i, "p": []}, "rv": {"use": {"move": {"l": tup["l"], "p": [i]}}}, "span": span})
         for j in range(bbase, bbase + n0):
@@ -426,6 +437,93 @@ class Inliner:
         blk["term"] = {"k": "goto", "target": bbase, "span": span, "inlined": callee["def"]}
         self.closure_inlined.add(callee["def"])
         return newb
+
+    COMBINATORS = {
+        "std::option::Option::<T>::map": ("std::option::Option", "None", "Some", 0, 1, True),
+        "std::option::Option::<T>::and_then": ("std::option::Option", "None", "Some", 0, 1, False),
+        "std::result::Result::<T, E>::map": ("std::result::Result", "Err", "Ok", 1, 0, True),
+        "std::result::Result::<T, E>::and_then": ("std::result::Result", "Err", "Ok", 1, 0, False),
+    }
+
+    def _effectful_closure(self, cdef):
+        """Does the closure (or a closure nested in it) call into this crate / tokio / std (not just alloc / core)?"""
+        for m in self._family(cdef):
+            b = self.raw.get(m)
+            for blk in (b or {}).get("blocks", []):
+                t = blk["term"]
+                if t["k"] == "call" and t.get("fn") and (t["fn"].get("krate") in (self.d.get("crate"), "tokio", "std") or t["fn"]["def"] in self.fns
+                                                         or t["fn"].get("name") == "downcast"):        # the typed view of a received reply
+                    return True
+        return False
+
+    def _lower_combinator(self, body, k):
+        """`opt.map(|x| ..)` / `.and_then(..)` / `res.map(..)` / `.and_then(..)` with a closure of this crate that *does* something
+        (calls into the crate, tokio or std): rewritten into the `match` it abbreviates - switch on the discriminant, the
+        closure called on the payload in one arm (and then spliced in like any by-value closure call), the other variant
+        passed through. A combinator over a pure closure (`.map(|r| Box::new(r))`, `.map(|_| ())`) is left as it is."""
+        blk = body["blocks"][k]
+        t = blk["term"]
+        fn = t.get("fn") or {}
+        spec = self.COMBINATORS.get(fn.get("def"))
+        if spec is None or len(t["args"]) != 2 or not fn.get("targs") or not t["dest"] is not None:
+            return False
+        adt, pass_v, call_v, pass_idx, call_idx, wrap = spec
+        targs = fn["targs"]
+        cty = self.d["types"][targs[-1]]
+        if not isinstance(cty, dict) or cty.get("k") != "closure" or cty.get("def") not in self.raw or not self._effectful_closure(cty["def"]):
+            return False
+        src = t["args"][0].get("move") or t["args"][0].get("copy")
+        clo = t["args"][1].get("move") or t["args"][1].get("copy")
+        if src is None or src["p"] or clo is None or clo["p"] or t.get("target") is None:
+            return False
+        callee = self.raw[cty["def"]]
+        if callee.get("arg_count") != 2:
+            return False
+        span = t["span"]
+        types = self.d["types"]
+        isize = next((i for i, x in enumerate(types) if isinstance(x, dict) and x.get("s") == "isize"), None)
+        if isize is None:
+            return False
+        payload_ty = targs[0]
+        ret_ty = callee["locals"][0]["ty"]
+        types.append({"s": "(%s,)" % types[payload_ty].get("s", "?"), "k": "tuple", "args": [payload_ty]})
+        tup_ty = len(types) - 1
+        L = len(body["locals"])
+        for ty in (isize, payload_ty, tup_ty, ret_ty):
+            body["locals"].append({"ty": ty, "mut": True, "span": span, "inl": "combinator"})
+        d_, pay, tup, res = L, L + 1, L + 2, L + 3
+        B = len(body["blocks"])
+        # k: switch; B: pass-through arm; B+1: call arm (call_once); B+2: wrap result
+        full = {"adt": adt, "targs": [], "fields": ["0"], "agg": "adt"}
+        if adt.endswith("Option"):
+            pass_rv = {"agg": "adt", "adt": adt, "variant": "None", "vidx": 0, "fields": [], "targs": [], "ops": []}
+        else:
+            body["locals"].append({"ty": targs[1], "mut": True, "span": span, "inl": "combinator"})
+            e_ = L + 4
+            pass_rv = {"agg": "adt", "adt": adt, "variant": "Err", "vidx": 1, "fields": ["0"], "targs": [], "ops": [{"move": {"l": e_, "p": []}}]}
+        blk["stmts"].append({"k": "assign", "place": {"l": d_, "p": []}, "rv": {"discr": {"l": src["l"], "p": []}, "ty": body["locals"][src["l"]]["ty"]}, "span": span})
+        blk["term"] = {"k": "switch", "discr": {"move": {"l": d_, "p": []}}, "discr_ty": isize, "arms": [[str(pass_idx), B]], "otherwise": B + 1, "span": span, "lowered": fn["def"]}
+        pass_stmts = []
+        if not adt.endswith("Option"):
+            pass_stmts.append({"k": "assign", "place": {"l": e_, "p": []}, "rv": {"use": {"move": {"l": src["l"], "p": [{"v": 1, "name": "Err"}, 0]}}}, "span": span})
+        pass_stmts.append({"k": "assign", "place": t["dest"], "rv": pass_rv, "span": span})
+        body["blocks"].append({"cleanup": False, "stmts": pass_stmts, "term": {"k": "goto", "target": t["target"], "span": span}})
+        call_fn = {"def": "std::ops::FnOnce::call_once", "targs": [targs[-1], tup_ty], "krate": "core", "path": "core::ops::function::FnOnce::call_once", "name": "call_once"}
+        body["blocks"].append({"cleanup": False, "stmts": [
+            {"k": "assign", "place": {"l": pay, "p": []}, "rv": {"use": {"move": {"l": src["l"], "p": [{"v": call_idx, "name": call_v}, 0]}}}, "span": span},
+            {"k": "assign", "place": {"l": tup, "p": []}, "rv": {"agg": "tuple", "ops": [{"move": {"l": pay, "p": []}}]}, "span": span}],
+            "term": {"k": "call", "fn": call_fn, "args": [{"move": {"l": clo["l"], "p": []}}, {"move": {"l": tup, "p": []}}], "dest": {"l": res, "p": []},
+                     "target": B + 2, "unwind": t.get("unwind"), "span": span, "fn_span": t.get("fn_span", span)}})
+        if wrap:
+            out_rv = {"agg": "adt", "adt": adt, "variant": call_v, "vidx": call_idx, "fields": ["0"], "targs": [], "ops": [{"move": {"l": res, "p": []}}]}
+        else:
+            out_rv = {"use": {"move": {"l": res, "p": []}}}
+        body["blocks"].append({"cleanup": False, "stmts": [{"k": "assign", "place": t["dest"], "rv": out_rv, "span": span}], "term": {"k": "goto", "target": t["target"], "span": span}})
+        nb = self._inline_closure_call(body, B + 1)
+        if nb is None:
+            return False      # cannot happen for the forms checked above; the lowered call stays an explicit call_once
+        self._lowered_new = nb
+        return True
 
     def _coroutine_ctor(self, outer):
         """For `async fn` X: the aggregate `_0 = coroutine[X::{closure#0}](ops)` of its outer body -> (coroutine def, [param index per upvar])."""
@@ -864,6 +962,29 @@ class Inliner:
             if not changed:
                 break
         bodies.extend(b for b in extra if b not in bodies)
+        # combinators over effectful closures -> the match they abbreviate
+        for body in list(bodies):
+            i = 0
+            touched = False
+            more = []
+            while i < len(body["blocks"]):
+                t = body["blocks"][i]["term"]
+                if t["k"] == "call" and t.get("fn") and t["fn"].get("def") in self.COMBINATORS and not body["blocks"][i].get("cleanup"):
+                    self._lowered_new = []
+                    if self._lower_combinator(body, i):
+                        more += self._lowered_new
+                        touched = True
+                        self.log.append((body["def"], t["fn"]["def"], "combinator"))
+                i += 1
+            if touched:
+                for _ in range(6):
+                    n_ = self._fold_const_switches(body)
+                    self._blank_unreachable(body)
+                    if not n_:
+                        break
+                self._thread_known_variants(body)
+                self._blank_unreachable(body)
+            bodies.extend(b for b in more if b not in bodies)
         # closures handed to a spliced-in generic helper and called there
         for _ in range(3):
             more = []
